@@ -446,6 +446,15 @@ theorem mem_externalEdgesId (m : Mesh) (earr : List (List Id)) (hn : earr.Nodup)
   · intro hb
     exact ⟨earr[i], ⟨List.getElem_mem _, hb⟩, indexOf?_getElem earr hn i hi⟩
 
+/-- `BigEdge.own_cells` of an interface that does not have exactly two vertices is the cell list of the vertex at
+    position `(len − 1) / 2` -/
+theorem bigEdgeOwnCells_mid (m : Mesh) (e : List Id) (hlen : e.length ≠ 2) (hi : (e.length - 1) / 2 < e.length) :
+    m.bigEdgeOwnCells e = m.ownCells (e[(e.length - 1) / 2]'hi) := by
+  have h2 : (e.length == 2) = false := by simpa using hlen
+  unfold Mesh.bigEdgeOwnCells
+  rw [h2]
+  simp [List.getD_eq_getElem?_getD, hi]
+
 end Mesh
 
 end Forsys
